@@ -15,7 +15,7 @@ from vf.sim.scenario import Sim
 LEVEL = "exploration"
 RULE = ("scripts over 1-3 concurrent send_messages_await_response_complex calls (own or shared response types out of 3, timeouts 0.5/1/2 s, "
         "harness-owned accept/stop predicates keyed by bits in the message) with events {start call i (+ device replies emitted the moment the "
-        "request is received = readable in the very next loop turn), arrival(type, accept bits, stop bits), cancel call i, toggle the library's debug flag, add a passive subscriber on a response type / call its remove function (repeatedly), close(eof|ETIMEDOUT from the kernel|garbage|force|peer DisconnectRequest|the next write raising at the transport|the next send refused by the socket; garbage and peer optionally in the same chunk as the answers before them)} "
+        "request is received = readable in the very next loop turn), arrival(type, accept bits, stop bits), cancel call i, toggle the library's debug flag, add a passive subscriber on a response type / call its remove function (repeatedly), close(eof|ETIMEDOUT from the kernel|ping timeout|the application's own graceful disconnect acknowledged late|garbage|force|peer DisconnectRequest|the next write raising at the transport|the next send refused by the socket; garbage and peer optionally in the same chunk as the answers before them)} "
         "and gaps {same instant, same chunk as the previous arrival (one TCP segment), +1 ms, exactly at call j's timeout instant}; instant replies optionally coalesced into one chunk; seeded random scripts, all orderings of small event sets at thorough; "
         "plus the public wrappers, plus (lifecycle engine) calls outstanding on a stalled connect with disconnect() on top when the link is lost: every one ends in that instant. Oracle: per-call sequential model over the recorded arrival history (process_packet order), exact timeout "
         "instant, connection's error at close, cancellation; leftovers after every ending: predicates never invoked after the call returned, "
@@ -64,6 +64,10 @@ def run_script(script: dict[str, Any]) -> dict[str, Any]:
         kw: dict[str, Any] = {}
         if script["framing"] == "noise":
             kw["noise_psk"] = base64.b64encode(PSK).decode()
+        if script.get("keepalive"):
+            kw["keepalive"] = script["keepalive"]      # small enough for a ping timeout to end the session while calls are outstanding
+        if script.get("slow_disconnect_answer"):
+            cfg.handlers["DisconnectRequest"] = lambda c, m, d=script["slow_disconnect_answer"]: c.send("DisconnectResponse", _delay=d)
         cli = sim.client(**kw)
         c0 = sim.call("connect", lambda: cli.connect(on_stop=sim.on_stop_cb(), login=False))
         sim.run(until=lambda: c0.done, max_time=sim.clock + 50)
@@ -104,6 +108,7 @@ def run_script(script: dict[str, Any]) -> dict[str, Any]:
 
         subs: list[Any] = []
         sub_log: list[tuple[int, int, int]] = []
+        internal: list[Any] = []     # disconnect() calls of the script: each is itself one request-response call of the library (timer + 1 handler + waiter)
 
         def subscribe(ty: int) -> None:
             k = len(subs)
@@ -181,6 +186,13 @@ def run_script(script: dict[str, Any]) -> dict[str, Any]:
                         dconn.deliver_items([item], t - sim.clock)
                 elif cause == "force":
                     sim.at(t, lambda: conn.force_disconnect())
+                elif cause == "pingfail":
+                    # the device stops answering pings (and sends nothing more): the keep-alive ends the session with PingFailedAPIError
+                    sim.at(t, lambda: setattr(cfg, "answer_ping", False))
+                elif cause == "disconnect":
+                    # the application's own graceful disconnect; the device acknowledges it a little later - until then the session is up and
+                    # responses to outstanding calls keep arriving
+                    sim.at(t, lambda: internal.append(sim.call("disconnect", lambda: cli.disconnect())))
                 elif cause == "writeraise":
                     # from now on the transport's write() raises (what uvloop does on a closed handle): the NEXT request written is the
                     # one that closes the connection, from inside its own send
@@ -199,6 +211,7 @@ def run_script(script: dict[str, Any]) -> dict[str, Any]:
             if not sim.end_of_instant():
                 return
             pending = [r for r in recs if r is not None and not r.done]
+            n_int = sum(1 for r in internal if not r.done and r.seq_call is not None and r.seq_call < sim.next_seq() - 1)
             timers = [x for x in sim.live_timers() if x == "handle_timeout"]
             handlers = getattr(conn, "_message_handlers", None)
             n_partials = None
@@ -206,9 +219,9 @@ def run_script(script: dict[str, Any]) -> dict[str, Any]:
                 n_partials = sum(1 for hs in handlers.values() for h in hs
                                  if isinstance(h, functools.partial) and getattr(h.func, "__name__", "") == "handle_complex_message")
             waiters = getattr(conn, "_read_exception_futures", None)
-            audits.append({"t": sim.clock, "pending": len(pending), "timeout_timers": len(timers),
+            audits.append({"t": sim.clock, "pending": len(pending) + n_int, "timeout_timers": len(timers),
                            "handler_registrations": n_partials,
-                           "expected_registrations": sum(len(calls[i]["types"]) for i, r in enumerate(recs) if r is not None and not r.done),
+                           "expected_registrations": sum(len(calls[i]["types"]) for i, r in enumerate(recs) if r is not None and not r.done) + n_int,
                            "waiters": None if waiters is None else len(waiters)})
 
         sim.post_step.append(audit)
@@ -370,11 +383,14 @@ def gen_script(rng: Any, framing: str) -> dict[str, Any]:
         elif r < 0.9:
             events.append([gap, "debug", rng.random() < 0.7])
         else:
-            cause = rng.choice(["eof", "garbage", "force", "peer", "garbage", "peer", "writeraise", "sendfail", "etimedout"])
+            cause = rng.choice(["eof", "garbage", "force", "peer", "garbage", "peer", "writeraise", "sendfail", "etimedout", "disconnect"])
             if cause in ("garbage", "peer") and events[-1][1] == "arrive" and rng.random() < 0.6:
                 gap = "chunk"
             events.append([gap, "close", cause])
-    return {"framing": framing, "calls": calls, "events": events, "coalesce": rng.random() < 0.5}
+    out = {"framing": framing, "calls": calls, "events": events, "coalesce": rng.random() < 0.5}
+    if any(e[1] == "close" and e[2] == "disconnect" for e in events):
+        out["slow_disconnect_answer"] = rng.choice([0.0015, 0.3, 0.7])
+    return out
 
 
 def small_exhaustive() -> Any:
@@ -464,6 +480,26 @@ def shard(ctx: Ctx) -> None:
                 one(ctx, script, "small-permutations-sample")
     if ctx.shard == 0:
         wrappers(ctx)
+    # the session ends by ping timeout / by the application's own graceful disconnect while calls are outstanding
+    idx = 0
+    for cause in ("pingfail", "disconnect"):
+        for ncalls in (1, 2):
+            for arrive_between in (False, True):
+                for gap in ("0", "ms"):
+                    idx += 1
+                    if not ctx.mine(idx):
+                        continue
+                    calls = [{"types": [0, 1], "timeout": 2.0, "instant": []}, {"types": [1], "timeout": 2.0, "instant": []}][:ncalls]
+                    ev = [["0", "call", i] for i in range(ncalls)] + [[gap, "close", cause]]
+                    if arrive_between:
+                        # answers that arrive after the close was initiated but before the connection is closed still complete their calls
+                        ev += [["ms", "arrive", 0, 1, 0], ["ms", "arrive", 1, 3, 3 if ncalls == 2 else 1]]
+                    sc: dict[str, Any] = {"framing": "plain", "calls": calls, "events": ev}
+                    if cause == "pingfail":
+                        sc["keepalive"] = 0.2
+                    else:
+                        sc["slow_disconnect_answer"] = 0.4
+                    one(ctx, sc, f"session-ended-by-{cause}")
     # zero and negative timeouts, alone and next to a normal call on the same type
     idx = 0
     for to in EDGE_TIMEOUTS:
